@@ -791,7 +791,8 @@ func (env *SpecEnv) call(e *SExpr) Val {
 		sl := v.GT.Underlying().(*types.Slice)
 		es := reg.SortOf(sl.Elem())
 		hn, hs := ex.sliceHeap(es)
-		return Val{T: sel(ex.H(env.cur, hn, hs), app("arr_"+string(v.S), v.T)), S: ArrS(SInt, es)}
+		// typed as a Go array of the element type so that elems(s)[i].Field resolves
+		return Val{T: sel(ex.H(env.cur, hn, hs), app("arr_"+string(v.S), v.T)), S: ArrS(SInt, es), GT: types.NewArray(sl.Elem(), 1<<40)}
 	case "off":
 		v := arg(0)
 		return Val{T: app("off_"+string(v.S), v.T), S: SInt}
